@@ -2,10 +2,12 @@
 use crate::runner::Tier;
 use crate::PropDef;
 
+pub mod bulk;
 pub mod concchecks;
 pub mod concchecks2;
 pub mod misc;
 pub mod seqchecks;
+pub mod typecheck;
 
 pub fn all() -> Vec<PropDef> {
     let mut v = Vec::new();
@@ -13,6 +15,8 @@ pub fn all() -> Vec<PropDef> {
     v.extend(concchecks::defs());
     v.extend(concchecks2::defs());
     v.extend(misc::defs());
+    v.extend(bulk::defs());
+    v.extend(typecheck::defs());
     v
 }
 
